@@ -19,8 +19,9 @@ SPEC = dict(
                 "the harness encoder/generator. Decoding of the bytes into entries (sparse bit sets, id deltas, flags) and URI template expansion are "
                 "not modelled: the harness states the decoded entries and URIs it intends and the comparison of results covers them indirectly "
                 "(an independent template expansion in the harness is compared with uri_string()). Format-1 tables are covered by the "
-                "implementation-only oracle (monotone, subset-of-all, grouping rules), not by the model. Glyph-keyed patch application inside the "
-                "extension loop is abstract (patch_ok)."),
+                "implementation-only oracle (generated glyph/feature maps compared with an independent decoder written from the spec; monotone, "
+                "subset-of-all, grouping rules), not by the model. The real extension loop runs with no-op table-keyed and no-op glyph-keyed "
+                "patches (every round must be Err or move a URI Pending->Applied); patch content is C18."),
     technique="Coq proof (list/Z reasoning, strong induction over entry index, lexicographic order lemmas) over hand-written Gallina model + vm_compute correspondence with incremental-font-transfer",
     modelled=["incremental-font-transfer/src/patchmap.rs: Entry::intersects, Entry::design_space_intersects, EntryIntersectionCache::{intersects, compute_intersection, all_children_intersect, some_children_intersect}, add_intersecting_format2_patches, intersecting_patches, SubsetDefinition::{all, intersection, design_space_intersection}, IntersectionInfo::{from_subset, design_space_size} and its Ord, decode_format2_entry's child-index and segment checks",
               "incremental-font-transfer/src/patch_group.rs: PatchGroup::{select_next_patches, select_next_patches_from_candidates, select_invalidating_candidate, uris, apply_next_patches_with_decoder (bookkeeping)}, GroupingByInvalidation::group_patches",
